@@ -305,3 +305,58 @@ def extra_coverage(results):
         for k in tot:
             tot[k] += 1 if f[k] else 0
     return {"histories_with": tot}
+
+
+# ---- ruleset-cgroup rulesets under drop-ins: decided on the drop-in engine -------------------------------------------------------
+#
+# h_rscgroup has no drop-ins.  A drop-in copy of a ruleset-cgroup base is itself a ruleset with the base's `cgroup` and
+# `xattr_filter`: it too is evaluated once per matching cgroup that passes the filter.  Decided on C13's engine (h_dropin) with
+# trees in which exactly one cgroup matches and passes (a second one matches the pattern but lacks the attribute); only clause
+# C11.dropin_world_once_per_matching_cgroup counts here.
+
+def dropin_scenarios(rng, tier):
+    from . import C13
+    n = {"quick": 800, "thorough": 10000, "search": 3000}[tier]
+    out = 0
+    while out < n:
+        s = C13.random_history(rng, 10)
+        if "tree" not in s:
+            continue
+        s.pop("twin_tag", None)
+        s["prop"] = PROP
+        out += 1
+        yield s
+
+
+def run(tier, seed, replay=None):
+    import json
+    import os
+    import random
+    import sys
+    from vlib import core
+    from . import C13
+    mod = sys.modules[__name__]
+
+    def want(c):
+        return c.startswith("C11.")
+    if replay:
+        rp = json.load(open(replay))
+        if rp.get("pass") == "dropincg":
+            viol, _, _ = core.extra_pass(PROP, "dropin", "h_dropin", "asan", [rp["scenario"]], tier, seed, want=want, label="dropincg")
+            for c, p in viol:
+                print("VIOLATION property=%s replay=%s" % (PROP, p))
+            return 1 if viol else 0
+        return core.run_check(mod, tier, seed, replay)
+    rc = core.run_check(mod, tier, seed, replay)
+    esc = tier == "quick" and core.changed_sources() and not os.environ.get("VERIF_NO_ESCALATION")
+    scs = list(dropin_scenarios(random.Random(seed * 8111 + 3), "search" if esc else tier))
+    viol, cov, res = core.extra_pass(PROP, "dropin", "h_dropin", "asan", scs, tier, seed, want=want,
+                                     shrink_candidates=getattr(C13, "shrink_candidates", None), label="dropincg")
+    cov["dropincg_pass_filtered_bases"] = sum(1 for s, t, v in res if any(b.get("xattr_filter") for b in s["rulesets"]))
+    core.merge_extra_into_evidence(PROP, cov, len(viol),
+                                   "drop-in pass (h_dropin): add / re-add / remove histories over ruleset-cgroup bases, half of them "
+                                   "with an xattr_filter that one of two matching cgroups passes; clause: base and every drop-in "
+                                   "copy run each detector once per matching cgroup that passes the filter")
+    for c, p in viol:
+        print("VIOLATION property=%s replay=%s" % (PROP, p))
+    return 1 if (rc or viol) else 0
